@@ -1203,7 +1203,15 @@ def check_graphql_traffic(res: Result, universe: str, atoms: list[dict], tier: s
     detail_base = {"universe": universe, "atoms": [ref.atom_id(a) for a in atoms]}
     expected, total = extra.gql_reference(universe, atoms)
     selected = set(expected)
-    schema = build(atoms, root=gql_load(universe))[-1]
+    try:
+        schema = build(atoms, root=gql_load(universe))[-1]
+    except Refused as exc:
+        if exc.message == "Filter already exists":
+            # two atoms that spell the same filter: refused as documented, there is no selection to run the engine with
+            res.count("graphql_traffic_sets_refused_as_documented")
+            return
+        res.violation({"kind": "filter_refused", **shape, "message": exc.message}, detail_base)
+        return
     scenario_labels: set = set()
 
     def on_event(event: Any, stream: Any) -> None:
